@@ -298,6 +298,12 @@ def buildTuples (k : Kind) (ps : List Param) : List Item :=
   let bt := ps.foldl (fun acc p => if p.isOut then acc ++ [Item.outArg p.name] else acc) []
   if k = .function then bt.insertIdx 0 .result else bt
 
+/-- `PyBuild_format`: the build units of the returned items, in `build_tuples` order. -/
+def buildFormat (k : Kind) (ps : List Param) (resUnit : List Nat) (unitOf : Nat → List Nat) : List Nat :=
+  (buildTuples k ps).flatMap (fun it => match it with
+    | .result => resUnit
+    | .outArg n => unitOf n)
+
 inductive PyRet where
   | zero                       -- tp_init: `return 0`
   | none                       -- `Py_RETURN_NONE`
